@@ -684,3 +684,113 @@ def obs_C04(g, out):
 
 
 P.OBS["C04"] = obs_C04
+
+
+# ---------------------------------------------------------------------------------------------
+# C07: curl(b/B) from an independent finite-difference oracle
+def _fd1(f, R, Z, ax, h):
+    if ax == 0:
+        return (-f(R + 2 * h, Z) + 8 * f(R + h, Z) - 8 * f(R - h, Z) + f(R - 2 * h, Z)) / (12 * h)
+    return (-f(R, Z + 2 * h) + 8 * f(R, Z + h) - 8 * f(R, Z - h) + f(R, Z - 2 * h)) / (12 * h)
+
+
+def curl_oracle(eq):
+    """curl(b/B) in cylindrical components from psi(R,Z) and fpol(psi) only (4th-order central differences), with
+    B_R = psi_Z/R, B_Z = -psi_R/R, B_zeta = fpol/R.  Returns function (R, Z) -> dict."""
+    h1, h2 = 1e-4, 2e-3
+    psi = lambda R, Z: eq.psi(R, Z)  # noqa: E731
+
+    def Bvec(R, Z):
+        pR, pZ = _fd1(psi, R, Z, 0, h1), _fd1(psi, R, Z, 1, h1)
+        return pZ / R, eq.fpol(psi(R, Z)) / R, -pR / R
+
+    def A(R, Z, k):
+        b = Bvec(R, Z)
+        return b[k] / (b[0] ** 2 + b[1] ** 2 + b[2] ** 2)
+
+    def f(R, Z):
+        cR = -_fd1(lambda r, z: A(r, z, 1), R, Z, 1, h2)
+        cZ = _fd1(lambda r, z: r * A(r, z, 1), R, Z, 0, h2) / R
+        ct = _fd1(lambda r, z: A(r, z, 0), R, Z, 1, h2) - _fd1(lambda r, z: A(r, z, 2), R, Z, 0, h2)
+        BR, Bt, BZ = Bvec(R, Z)
+        return {"cR": cR, "ct": ct, "cZ": cZ, "BR": BR, "Bt": Bt, "BZ": BZ, "pR": -BZ * R, "pZ": BR * R}
+
+    return f
+
+
+def grad_y_direction(g, loc):
+    """unit vector n (R, Z components) along grad(y) and n . e_y_hat at every file position of `loc' (centre or ylow), measured
+    from the grid: n is perpendicular to the radial grid direction (x-face to x-face), e_y_hat the tangent of the flux surface in
+    the direction of increasing y"""
+    t = g.extra["tables"]
+    nR = np.full((t["meshnx"], t["meshny"]), np.nan)
+    nZ = np.full_like(nR, np.nan)
+    for r in g.extra["regions"]:
+        i = r["id"]
+        x0, x1, y0, y1 = t["rects"][i]
+        Pm = region_lattice(g, i)
+        for a in range(x1 - x0):
+            for b in range(y1 - y0):
+                if loc == "centre":
+                    ex = Pm[2 * a + 2, 2 * b + 1] - Pm[2 * a, 2 * b + 1]
+                    ey = Pm[2 * a + 1, 2 * b + 2] - Pm[2 * a + 1, 2 * b]
+                else:
+                    ex = Pm[2 * a + 2, 2 * b] - Pm[2 * a, 2 * b]
+                    ey = Pm[2 * a + 1, 2 * b + 1] - Pm[2 * a + 1, 2 * b] if b == 0 else Pm[2 * a + 1, 2 * b + 1] - Pm[2 * a + 1, 2 * b - 1]
+                n = np.array([-ex[1], ex[0]]) / np.hypot(*ex)
+                if n @ ey < 0:
+                    n = -n
+                nR[x0 + a, y0 + b], nZ[x0 + a, y0 + b] = n
+    return nR, nZ
+
+
+def obs_C07(g, out):
+    out["kind"] = "single"
+    eq = g.eq
+    orc = curl_oracle(eq)
+    orth = bool(g.extra["orthogonal"])
+    for loc in ("centre", "xlow", "ylow"):
+        R, Z = g.loc("Rxy", loc), g.loc("Zxy", loc)
+        o = orc(R, Z)
+        hy, Bp, Bt, B = g.loc("hy", loc), g.loc("Bpxy", loc), g.loc("Btxy", loc), g.loc("Bxy", loc)
+        fx, fy, fz = (g.loc("curl_bOverB_" + c, loc) for c in "xyz")
+        cx = o["cR"] * o["pR"] + o["cZ"] * o["pZ"]
+        bpmag = np.hypot(o["BR"], o["BZ"])
+        if orth or loc == "xlow":
+            # grad(y) = tangent of the surface in the direction of increasing y, over hy: sign from the file's signed Bpxy
+            sg = np.sign(Bp)
+            gyR, gyZ = sg * o["BR"] / bpmag / hy, sg * o["BZ"] / bpmag / hy
+        else:
+            nR, nZ = grad_y_direction(g, loc)
+            sg = np.sign(Bp)
+            eyR, eyZ = sg * o["BR"] / bpmag, sg * o["BZ"] / bpmag
+            cosb = nR * eyR + nZ * eyZ
+            gyR, gyZ = nR / (hy * cosb), nZ / (hy * cosb)
+        cy = o["cR"] * gyR + o["cZ"] * gyZ
+        cz = o["ct"] / R - Bt * hy / (Bp * R) * cy
+        sx, sy, sz = (relq(v, rel=1e-6) for v in (fx, fy, fz))
+        pair(out, "CurlX", loc, fx, cx, sx, 3000, dom="all")
+        if orth or loc != "xlow":
+            pair(out, "CurlY", loc, fy, cy, sy, 5000, dom="awayX")
+            pair(out, "CurlZ", loc, fz, cz, sz, 5000, dom="awayX")
+        for c, f in zip("xyz", (fx, fy, fz)):
+            bx = g.loc("bxcv" + c, loc)
+            pair(out, "BxcvIsHalfBCurl", loc, bx, B / 2.0 * f, relq(bx, rel=1e-9), 10, dom="all")
+
+
+P.OBS["C07"] = obs_C07
+
+
+def obs_C07_pair(gA, gB, kind, out):
+    """A: curvature_type curl(b/B) (R-Z form); B: the same grid with the x-y-derivative form"""
+    out["kind"] = kind
+    sc = {}
+    for c in "xyz":
+        a, b = gA.var("curl_bOverB_" + c), gB.var("curl_bOverB_" + c)
+        q = 1e-6 * max(float(np.nanmax(np.abs(a))), 1e-300)
+        sc[c] = {"A": Q(a, q), "B": Q(b, q)}
+    out["curl"] = sc
+    out["posdiff"] = int(min(np.nanmax(np.hypot(gA.var("Rxy") - gB.var("Rxy"), gA.var("Zxy") - gB.var("Zxy"))) / 1e-9, 10**9))
+
+
+P.OBS_PAIR["C07"] = obs_C07_pair
